@@ -232,6 +232,42 @@ func init() {
 		p, ok := e.Verify(time.Unix(a[2].I64(), a[3].I64()), fetcherOf(a[5]), discardLog)
 		return verdictSx(p, ok)
 	})
+	regOp("sxg_history", func(a []Sx) Sx {
+		e := exchangeOf(a[0])
+		out := []Sx{}
+		for _, act := range a[1].L {
+			switch string(act.L[0].B) {
+			case "integrity":
+				s, err := e.ComputeHeaderIntegrity()
+				out = append(out, bytesR([]byte(s), err))
+			case "headers":
+				var buf bytes.Buffer
+				err := e.DumpExchangeHeaders(&buf)
+				out = append(out, bytesR(buf.Bytes(), err))
+			case "write":
+				var buf bytes.Buffer
+				err := e.Write(&buf)
+				out = append(out, bytesR(buf.Bytes(), err))
+			case "miencode":
+				if err := e.MiEncodePayload(act.L[1].Int()); err != nil {
+					out = append(out, L(Sym("err")))
+				} else {
+					out = append(out, L(Sym("ok")))
+				}
+			case "status":
+				e.ResponseStatus = act.L[1].Int()
+			case "addresp":
+				e.ResponseHeaders.Add(string(act.L[1].B), string(act.L[2].B))
+			case "addreq":
+				e.RequestHeaders.Add(string(act.L[1].B), string(act.L[2].B))
+			case "method":
+				e.RequestMethod = string(act.L[1].B)
+			case "payload":
+				e.Payload = append([]byte{}, act.L[1].B...)
+			}
+		}
+		return L(out...)
+	})
 	regOp("bigendian", func(a []Sx) Sx {
 		b, err := sxg.VerifEncodeBytesUint(a[0].I64(), a[1].Int())
 		if err != nil {
